@@ -576,6 +576,15 @@ func (root *Root) validateDirUse(where string, loc Location, du *DirectiveUse) (
 		return append(errs, fmt.Errorf("%w, directive @%s can not be applied to %s, a %s at %d:%d",
 			ErrValidation, d.Name(), where, loc, du.line, du.col))
 	}
+	for _, ra := range d.args.list {
+		// Defaults are filled in when the use is read but only if the
+		// directive was already defined, a required argument can still be
+		// missing here.
+		if _, nn := ra.Type.(*NonNull); nn && ra.Default == nil && du.Args[ra.N] == nil {
+			errs = append(errs, fmt.Errorf("%w, directive argument %s for directive %s on %s is required at %d:%d",
+				ErrValidation, ra.N, d.Name(), where, du.line, du.col))
+		}
+	}
 	var a *Arg
 	for _, av := range du.Args {
 		if a = d.findArg(av.Arg); a == nil {
